@@ -158,6 +158,16 @@ func (in *Interp) intrinsic(caller *frame, name string, args []value, pos token.
 			}
 		}
 		return Tuple{st, tFalse}
+	case "FloatFromDecimal":
+		// the double whose shortest round-trip decimal is d1.d2...dn x 10^E (digits symbolic, E concrete). Its bit
+		// pattern is a fresh symbol tied to E by the monotonicity of decimal exponents: E(x) >= T <=> x >= nearest(10^T).
+		sl := args[0].(*Slice)
+		E := in.concreteInt(args[1], "decimal exponent")
+		dv := &DecView{E: E}
+		for _, b := range sl.Data {
+			dv.Digits = append(dv.Digits, b.(*Term))
+		}
+		return in.decFloat(dv.Digits, E, false)
 	case "SwapCase":
 		// one letter (index >= 3) of an encoder's output changes case: a different, still well-formed text
 		st := args[0].(*Str)
